@@ -224,28 +224,35 @@ Definition class_codes : list Z := [cA; ca; cL; cUL; cUM; cD; ch; cH; cX; cN; cn
 Definition quant_okb (m : Z) (M : option Z) : bool :=
   Z.leb 0 m && match M with Some M' => Z.leb 0 M' | None => true end.
 
-Definition frag_renderable (f : frag) : bool :=
+(* with the B/b/M codes that exist only with extra letters *)
+Definition all_codes : list Z := class_codes ++ [cB; cb; cM].
+(* what Categories keeps of extra_letters: a subset of _ . - in this order *)
+Definition extras8 : list str := [[]; [95]; [46]; [45]; [95; 46]; [95; 45]; [46; 45]; [95; 46; 45]].
+
+Definition frag_renderable (e : str) (f : frag) : bool :=
   match f_atom f with
   | ALit [c] => quant_okb (f_min f) (f_max f)
   | ALit _ => Z.eqb (f_min f) 1 && opt_Z_eqb (f_max f) 1
   | ARaw c => (Z.eqb c 46 || negb (is_meta c)) && quant_okb (f_min f) (f_max f)
-  | AClass code => memc code class_codes && quant_okb (f_min f) (f_max f)
+  | AClass code => memc code all_codes && (match cat_re false e code with Some _ => true | None => false end) &&
+                   quant_okb (f_min f) (f_max f)
   | ABracket cs => negb (match cs with [] => true | _ => false end) && quant_okb (f_min f) (f_max f)
   end.
 
 
-(* are all the patterns of one batch extraction (no extra letters) covered by the text theorem? *)
-Definition batch_renderable (ct : chartab) (o : ropts) (stripped : bool) (gt : groups_table) (ex : examples) : bool :=
-  match batch_extract ct o [] stripped gt ex with
-  | Ok (merged, _) => forallb (forallb frag_renderable) merged
+(* are all the patterns of one batch extraction covered by the text theorem? *)
+Definition batch_renderable (ct : chartab) (o : ropts) (e : str) (stripped : bool) (gt : groups_table) (ex : examples) : bool :=
+  mem_str e extras8 &&
+  match batch_extract ct o e stripped gt ex with
+  | Ok (merged, _) => forallb (forallb (frag_renderable e)) merged
   | Err _ => false
   end.
 
-(* (opts stripped groups strings) -> 0/1 *)
+(* (opts extras stripped groups strings) -> 0/1 *)
 Definition renderable_entry (s : sexp) : sexp :=
-  of_bool (batch_renderable py_chartab (sx_ropts (sx_nth 0 s)) (sx_bool (sx_nth 1 s))
-                            (map sx_grow (sx_list (sx_nth 2 s)))
-                            {| ex_strings := sx_strs (sx_nth 3 s); ex_freqs := [] |}).
+  of_bool (batch_renderable py_chartab (sx_ropts (sx_nth 0 s)) (sx_str (sx_nth 1 s)) (sx_bool (sx_nth 2 s))
+                            (map sx_grow (sx_list (sx_nth 3 s)))
+                            {| ex_strings := sx_strs (sx_nth 4 s); ex_freqs := [] |}).
 
 (* (text strings) -> (2) outside the fragment | (b1 b2 ...) one 0/1 per string *)
 Definition regex_entry (s : sexp) : sexp :=
